@@ -33,7 +33,7 @@ type StandardClass struct {
 	pkg             *slip.Package
 	precedence      []slip.Symbol
 	defaultInitArgs map[string]slip.Object
-	initArgs        map[string]*SlotDef // map with keys of initargs
+	initArgs        map[string][]*SlotDef // map with keys of initargs, one SlotDef for each slot filled
 	initForms       map[string]*SlotDef
 	methods         map[string]*slip.Method
 	baseClass       slip.Symbol
@@ -389,13 +389,13 @@ func (c *StandardClass) mergeSupers() bool {
 		}
 		m.Combinations = append(m.Combinations, im.Combinations...)
 	}
-	c.initArgs = map[string]*SlotDef{}
+	c.initArgs = map[string][]*SlotDef{}
 	c.initForms = map[string]*SlotDef{}
 	for i := len(c.inherit) - 1; 0 <= i; i-- {
 		if sc, ok := c.inherit[i].(isStandardClass); ok {
 			for _, sd := range sc.slotDefMap() {
 				for _, ia := range sd.initargs {
-					c.initArgs[string(ia)] = sd
+					c.addInitArg(string(ia), sd)
 				}
 				if sd.initform != slip.Unbound {
 					c.initForms[sd.name] = sd
@@ -405,7 +405,7 @@ func (c *StandardClass) mergeSupers() bool {
 	}
 	for _, sd := range c.slotDefs {
 		for _, ia := range sd.initargs {
-			c.initArgs[string(ia)] = sd
+			c.addInitArg(string(ia), sd)
 		}
 		if sd.initform != slip.Unbound {
 			c.initForms[sd.name] = sd
@@ -457,7 +457,20 @@ func (c *StandardClass) slotDefMap() map[string]*SlotDef {
 	return c.slotDefs
 }
 
-func (c *StandardClass) initArgDef(name string) *SlotDef {
+// addInitArg adds sd as a slot filled by the initarg. An initarg can fill
+// more than one slot. A more specific definition of the same slot replaces a
+// less specific one.
+func (c *StandardClass) addInitArg(initarg string, sd *SlotDef) {
+	for i, sd2 := range c.initArgs[initarg] {
+		if sd2.name == sd.name {
+			c.initArgs[initarg][i] = sd
+			return
+		}
+	}
+	c.initArgs[initarg] = append(c.initArgs[initarg], sd)
+}
+
+func (c *StandardClass) initArgDefs(name string) []*SlotDef {
 	return c.initArgs[name]
 }
 
